@@ -46,6 +46,23 @@ pub fn check_one(ctx: &mut Ctx, family: &str, idx: u64, p: &PktM) {
     }
 }
 
+/// `n` minimal entries in section `sec` (0 = questions) plus a few elsewhere
+pub fn many_entries(n: usize, sec: usize, salt: u64) -> PktM {
+    let mut p = PktM { id: salt as u16 ^ 0x5A5A, flags: 0x8000, ..Default::default() };
+    for i in 0..n {
+        if sec == 0 {
+            p.qs.push(QSem { name: vec![vec![b'q', b'0' + (i % 10) as u8]], qtype: 1, qclass: 1, unicast: i % 7 == 0 });
+        } else {
+            p.secs[sec - 1].push(RecSem { name: vec![vec![b'r', b'0' + (i % 10) as u8]], rtype: 1, class: 1, flush: i % 5 == 0, ttl: i as u32, rd: Rd::Fields(vec![F::Int(i as u64)]) });
+        }
+    }
+    p.secs[(sec + 1) % 3].push(RecSem { name: vec![b"tail".to_vec()], rtype: 16, class: 1, flush: false, ttl: 1, rd: Rd::Fields(vec![F::List(vec![b"x".to_vec()])]) });
+    if salt % 2 == 0 {
+        p.edns = Some(EdnsM { udp: 1232, version: 0, opts: vec![] });
+    }
+    p
+}
+
 pub fn run(ctx: &mut Ctx) {
     let tier = ctx.tier;
     let scale = if ctx.slow_tool { 0 } else { tier.pick(10u64, 1500u64) };
@@ -160,6 +177,21 @@ pub fn run(ctx: &mut Ctx) {
                     ctx.add("qtype_qclass_unicast_combinations", 1);
                     check_one(ctx, "special", idx, &p);
                 }
+            }
+        }
+    }
+
+    // ---- many entries: section counts above 255 (both count bytes in use) ------------------------------------------
+    if ctx.family_active("many") && !ctx.slow_tool {
+        for (idx, n) in [255usize, 256, 257, 300, 511, 512, 700, 1000, 2000].iter().enumerate() {
+            for sec in 0..4usize {
+                let idx = (idx * 4 + sec) as u64;
+                if !ctx.take("many", idx) {
+                    continue;
+                }
+                let p = many_entries(*n, sec, idx);
+                ctx.add("packets_with_more_than_255_entries_in_a_section", 1);
+                check_one(ctx, "many", idx, &p);
             }
         }
     }
